@@ -4,6 +4,7 @@ CONSTANTS
   SampleSize = 0
   NoTypeCheck = FALSE
   ImportOnlyNotFound = TRUE
+  MroRegistryLookup = FALSE
   NoClassCheck = FALSE
 SPECIFICATION Spec
 INVARIANT OnlyDocumented
